@@ -455,3 +455,108 @@ def depth_of(v) -> int:
     if v[0] == "m":
         return 1 + max([depth_of(x) for _, x in v[1]] or [0])
     return 0
+
+
+# ---------------------------------------------------------------------------------------------------
+# round 2 (C08): values that are DIFFERENT but equal under some coarser notion of "the same" — the inputs on which
+# a well-meant fast path / normalisation / tolerance in a comparison shows (additive; used by props/c08.py only)
+# ---------------------------------------------------------------------------------------------------
+
+# atoms a "text" is assembled from: ASCII, precomposed letters, singleton equivalents, compatibility characters, case
+# oddities, Hangul, combining marks (also in non-canonical order), variation selectors / joiners
+STR_ATOMS = ["a", "A", "e", "E", "z", "k", "K", "1", " ", "ss", "fi", "i", "I", "s", "cafe", "\u00e9", "e\u0301", "\u00c9",
+             "\u00c5", "\u212b", "A\u030a", "\u00f1", "n\u0303", "\u00fc", "u\u0308", "\u01c6", "\u01c5", "\u01c4", "\u00df",
+             "\u1e9e", "\ufb01", "\u0130", "\u0131", "\u03c2", "\u03c3", "\u03a3", "\u212a", "\u2126", "\u03a9", "\u00b5",
+             "\u03bc", "\uac00", "\u1100\u1161", "\ud55c", "\u1112\u1161\u11ab", "\uff71", "\u30a2", "\uff21", "\uff11",
+             "\u00b2", "\u00bd", "\u2163", "\u1e69", "s\u0323\u0307", "s\u0307\u0323", "q\u0307\u0323", "q\u0323\u0307",
+             "\u1e9b\u0323", "\u0301", "\u2764\ufe0f", "\u2764", "\u200b", "\u00a0", "\u00ad", "\u0390", "\u03b9\u0308\u0301",
+             "\U0001d400", "\U0001f431", "\u0958", "\u0915\u093c", "\u0f73", "\u0f71\u0f72", "\u304c", "\u304b\u3099", "\u00e7",
+             "c\u0327", "\u1ebf", "e\u0302\u0301"]
+
+
+def _str_transforms():
+    import unicodedata as U
+    return [
+        ("nfc", lambda s: U.normalize("NFC", s)), ("nfd", lambda s: U.normalize("NFD", s)),
+        ("nfkc", lambda s: U.normalize("NFKC", s)), ("nfkd", lambda s: U.normalize("NFKD", s)),
+        ("lower", str.lower), ("upper", str.upper), ("casefold", str.casefold), ("title", str.title), ("swapcase", str.swapcase),
+        ("strip", str.strip), ("pad", lambda s: s + " "), ("lpad", lambda s: " " + s), ("nul", lambda s: s + "\x00"),
+        ("zwsp", lambda s: s + "\u200b"), ("nomarks", lambda s: "".join(c for c in U.normalize("NFD", s) if not U.combining(c))),
+        ("ascii", lambda s: s.encode("ascii", "ignore").decode()), ("latin1", lambda s: s.encode("latin-1", "replace").decode("latin-1")),
+        ("utf16swap", lambda s: "".join(sorted(s, key=lambda c: c.encode("utf-16-be")))), ("rev", lambda s: s[::-1]),
+    ]
+
+
+STR_TRANSFORM_WEIGHTS = {"nfc": 5, "nfd": 5, "nfkc": 2, "nfkd": 2, "casefold": 2, "lower": 2, "upper": 2}
+
+
+def gen_text(rng: random.Random) -> str:
+    """a short text assembled from STR_ATOMS (1–3 atoms)"""
+    return "".join(rng.choice(STR_ATOMS) for _ in range(rng.choice([1, 1, 2, 2, 3])))
+
+
+def equiv_texts(rng: random.Random, s: str, n: int) -> List[str]:
+    """`n` texts related to `s` by normalisation / case mapping / padding / stripping of marks … (possibly equal to `s`)"""
+    tfs = _str_transforms()
+    ws = [STR_TRANSFORM_WEIGHTS.get(name, 1) for name, _ in tfs]
+    out = []
+    for _ in range(n):
+        t = s
+        for _ in range(rng.choice([1, 1, 1, 2])):
+            _, f = rng.choices(tfs, weights=ws)[0]
+            try:
+                t = f(t)
+            except Exception:
+                pass
+        out.append(t)
+    return out
+
+
+def str_spec(s: str):
+    return ["s", [ord(c) for c in s if not 0xD800 <= ord(c) <= 0xDFFF]]
+
+
+def near_equal_scalars(rng: random.Random, v) -> list:
+    """values of the same scalar type that a sloppy comparison could take for `v`: wrap-around / truncation images of
+    integers, doubles within a relative tolerance or equal in binary32, the same wall-clock reading in another zone,
+    instants / durations equal after truncation to milliseconds or seconds"""
+    t = v[0]
+    out = []
+    if t == "i":
+        for d in (2**32, -2**32, 2**31, 2**53, 1, -1):
+            out.append(["i", v[1] + d])
+        out += [["i", -v[1]], ["i", (v[1] & 0xFFFFFFFF)], ["i", int(float(v[1])) if abs(v[1]) < 2**62 else v[1]]]
+        out = [x for x in out if I_MIN <= x[1] <= I_MAX]
+    elif t == "u":
+        for d in (2**32, -2**32, 2**63, -2**63, 2**53, 1, -1):
+            out.append(["u", v[1] + d])
+        out += [["u", v[1] & 0xFFFFFFFF], ["u", v[1] & (2**63 - 1)]]
+        out = [x for x in out if 0 <= x[1] <= U_MAX]
+    elif t == "d" and v[1] != "nan":
+        x = dbl_of(v[1])
+        cands = [x * (1 + 1e-10), x * (1 - 1e-12), x + 1e-9, -x, math.nextafter(x, math.inf), math.nextafter(x, -math.inf)]
+        try:
+            cands.append(struct.unpack("<f", struct.pack("<f", x))[0])
+        except (OverflowError, struct.error):
+            pass
+        if abs(x) < 2**62 and x == x and not math.isinf(x):
+            cands += [float(round(x)), float(int(x))]
+        out = [["d", bits_of(c)] for c in cands if c == c]
+    elif t == "t":
+        for off in (60, -60, 330, -480):
+            us = v[1] + (v[2] - off) * 60 * 10**6            # the same wall-clock fields read in another zone
+            if TS_LO <= us <= TS_HI:
+                out.append(["t", us, off])
+        out += [["t", v[1] - v[1] % 1000, v[2]], ["t", v[1] - v[1] % 10**6, v[2]], ["t", v[1] + 999, v[2]], ["t", v[1] + 86400 * 10**6, v[2]]]
+        out = [x for x in out if TS_LO <= x[1] <= TS_HI]
+    elif t == "r":
+        out = [["r", v[1] - v[1] % 1000], ["r", v[1] - v[1] % 10**6], ["r", v[1] + 999], ["r", -v[1]], ["r", v[1] + 86400 * 10**6],
+               ["r", v[1] % (86400 * 10**6)]]
+        out = [x for x in out if -DUR_MAX <= x[1] <= DUR_MAX]
+    elif t == "y":
+        bs = bytes(v[1])
+        out = [["y", list(b)] for b in (bs.lower(), bs.upper(), bs.rstrip(b"\x00"), bs + b"\x00", bs.strip(), bytes(c & 0x7F for c in bs))]
+    elif t == "s":
+        s = "".join(chr(c) for c in v[1])
+        out = [str_spec(x) for x in equiv_texts(rng, s, 3)]
+    return out
